@@ -53,16 +53,36 @@ def chk_polar(inp):
         Kf = K.reshape(nf, -1)
         C = -0.5 * Kf @ Dm @ Kf.T / (nr * npp) ** 2
         off = C - numpy.diag(numpy.diag(C))
-        if abs(off).max() > 2e-3 * ev[0] or abs(numpy.diag(C)[:6] - ev[:6]).max() > 2e-2 * ev[0]:
+        # (on the native grid the identity is exact up to rounding: measured 1e-14 relative per mode on the unchanged tree)
+        if abs(off).max() > 1e-9 * ev[0] or (abs(numpy.diag(C) - ev) / ev).max() > 1e-8:
             return bad("KL functions do not diagonalise the Kolmogorov covariance with the returned variances (ri=%g, nr=%d, %d functions)" % (ri, nr, nf),
-                       [float(abs(off).max() / ev[0]), float(abs(numpy.diag(C)[:6] - ev[:6]).max() / ev[0])], "< 2e-3, < 2e-2 of the tip/tilt variance")
+                       [float(abs(off).max() / ev[0]), float((abs(numpy.diag(C) - ev) / ev).max())], "< 1e-9 of the tip/tilt variance off the diagonal, < 1e-8 relative per variance")
         key = (ri, nr)
         if key in seen and not numpy.allclose(seen[key], ev[:len(seen[key])][:12], rtol=1e-10):
             return bad("a second basis for the same pupil returns different variances (state carried between calls)")
         seen[key] = ev[:12].copy()
 
 
+def chk_robust(inp):
+    """every pupil / radial sampling in the stated range gives a basis: no NaN kernel, no shape accident in the resampling"""
+    import io, contextlib
+    for (ri, nr) in ((0.02, 24), (0.23, 28), (0.26, 32), (0.3, 49), (0.3, 98), (0.5, 7), (0.05, 11)):
+        try:
+            with contextlib.redirect_stdout(io.StringIO()):
+                kl, var, pupil, base = aotools.make_kl(8, 20, ri=ri, nr=nr)
+        except Exception as ex:
+            return bad("make_kl(8, 20, ri=%g, nr=%d) raises %s: %s" % (ri, nr, type(ex).__name__, str(ex)[:120]), type(ex).__name__, "a KL basis")
+        if not numpy.all(numpy.isfinite(kl)) or not numpy.all(numpy.isfinite(var)):
+            return bad("make_kl(8, 20, ri=%g, nr=%d) returns non-finite values" % (ri, nr))
+        ev = numpy.asarray(var)[:8]
+        if numpy.any(ev <= 0) or numpy.any(numpy.diff(ev) > 1e-12 * ev[0]):
+            return bad("make_kl(8, 20, ri=%g, nr=%d): variances not positive / non-increasing" % (ri, nr), ev.tolist())
+
+
 def chk_cartesian(inp):
+    r = chk_robust(inp)
+    if r:
+        return r
     dims = [int(inp["dim"])] if inp and "dim" in inp and 4 <= int(inp["dim"]) <= 80 else [16, 24, 33, 17, 40]
     for dim in dims:
         for ri in (0.25, 0.4):
@@ -75,6 +95,12 @@ def chk_cartesian(inp):
                 return bad("returned pupil is not the annulus indicator at pixel centres (dim=%d, ri=%g)" % (dim, ri), int((pupil != want).sum()), 0)
             if kl.shape != (8, dim, dim) or abs(kl * (1 - want)).max() != 0:
                 return bad("masked Cartesian modes are not zero outside the annulus (dim=%d)" % dim, float(abs(kl * (1 - want)).max()), 0.0)
+            if dim in (16, 33):
+                # every true-valued way of asking for masking masks (the flag is documented as a boolean)
+                for flag in (numpy.True_, numpy.bool_(True), 1, (ri < 1)):
+                    klf = aotools.make_kl(4, dim, ri=ri, nr=16, mask=flag)[0]
+                    if abs(klf * (1 - want)).max() != 0:
+                        return bad("make_kl(mask=%r): Cartesian modes are not zero outside the annulus (dim=%d)" % (flag, dim), float(abs(klf * (1 - want)).max()), 0.0)
             # follows the polar function at each pixel's (r, theta): compare with the polar function evaluated at the nearest polar cell
             nr, npp = base["nr"], base["np"]
             rr = numpy.sqrt(R2)
